@@ -568,6 +568,9 @@ def _atom_key(e: ast.AST):
     while isinstance(e, ast.UnaryOp) and isinstance(e.op, ast.Not):
         e = e.operand
         pol = not pol
+    if isinstance(e, ast.Compare) and len(e.ops) == 1 and isinstance(e.ops[0], (ast.Eq, ast.NotEq)) and is_none(e.comparators[0]):
+        # `x == None` reads as `x is None`
+        e = ast.Compare(left=e.left, ops=[ast.Is() if isinstance(e.ops[0], ast.Eq) else ast.IsNot()], comparators=e.comparators)
     if isinstance(e, ast.Compare) and len(e.ops) == 1 and isinstance(e.ops[0], (ast.IsNot, ast.NotEq, ast.NotIn)):
         op = {ast.IsNot: ast.Is, ast.NotEq: ast.Eq, ast.NotIn: ast.In}[type(e.ops[0])]()
         e = ast.Compare(left=e.left, ops=[op], comparators=e.comparators)
